@@ -1,7 +1,7 @@
 /* C16 harness: fault injection under the library's stdio calls.
  *
  * usage: drive_fault <workdir> <jobfile>
- * Each job line:   <workload> <mode> <k> <variant>
+ * Each job line:   <workload> <mode> <k> <variant> [<k2>]        (k2: a second single fault at stdio call k2)
  *   mode   n = no fault, s = single fault at stdio call k, t = sticky (call k and every later call fail)
  *   k      0-based index of the stdio call (counted from the moment the workload proper starts; preparation of
  *          input files for read/update workloads runs before with injection off)
@@ -66,7 +66,7 @@ static struct result *RES;
 /* ------------------------------------------------------------------------------------------------ */
 /* the interposer                                                                                     */
 static int  armed;
-static long fail_at = -1;
+static long fail_at = -1, fail_at2 = -1;     /* fail_at2: an optional second, independent single fault */
 static int  sticky, variant;
 
 FILE  *__real_fopen(const char *, const char *);
@@ -99,7 +99,7 @@ static int tick(char kind)
 {
     if (!armed) return 0;
     long i  = RES->ncalls++;
-    int  f  = fail_at >= 0 && (i == fail_at || (sticky && i > fail_at));
+    int  f  = (fail_at >= 0 && (i == fail_at || (sticky && i > fail_at))) || (fail_at2 >= 0 && i == fail_at2);
     if (i < MAXCALLS) RES->kinds[i] = f ? (char)toupper(kind) : kind;
     if (f) {
         RES->nfaults++;
@@ -632,6 +632,7 @@ static long imgdiff(struct image a, struct image b)
 
 struct outcome { char status[32]; struct image img; struct result res; };
 
+static long job_k2 = -1;
 static void run_child(const char *dir, void (*body)(const char *, void *), void *arg, long k, int md, int var,
                       struct outcome *o)
 {
@@ -644,6 +645,7 @@ static void run_child(const char *dir, void (*body)(const char *, void *), void 
     if (pid == 0) {
         alarm(20);
         fail_at = (md == 'n') ? -1 : k;
+        fail_at2 = (md == 'n') ? -1 : job_k2;
         sticky = md == 't';
         variant = var;
         body(path, arg);
@@ -700,7 +702,8 @@ int main(int argc, char **argv)
 #ifdef C16_FN
         if (!strcmp(wl, "fn")) { fn_job(dir, ln, line); continue; }
 #endif
-        if (sscanf(line, "%63s %7s %ld %d", wl, md, &k, &var) < 2) continue;
+        job_k2 = -1;
+        if (sscanf(line, "%63s %7s %ld %d %ld", wl, md, &k, &var, &job_k2) < 2) continue;
         int w = -1;
         for (int i = 0; i < NWL; i++) if (!strcmp(WL[i].name, wl)) w = i;
         if (w < 0) { printf("%ld unknown-workload %s\n", ln, wl); continue; }
@@ -718,8 +721,8 @@ int main(int argc, char **argv)
         int allok = 1;
         char fk = '-';
         for (long i = 0; i < o.res.ncalls && i < MAXCALLS; i++) if (isupper((unsigned char)o.res.kinds[i])) { fk = (char)tolower(o.res.kinds[i]); break; }
-        printf("%ld wl=%s mode=%s k=%ld var=%d status=%s ncalls=%ld nfaults=%ld fkind=%c rets=", ln, wl, md, k, var,
-               o.status, o.res.ncalls, o.res.nfaults, fk);
+        printf("%ld wl=%s mode=%s k=%ld k2=%ld var=%d status=%s ncalls=%ld nfaults=%ld fkind=%c rets=", ln, wl, md, k, job_k2,
+               var, o.status, o.res.ncalls, o.res.nfaults, fk);
         for (int i = 0; i < o.res.nrets; i++) {
             printf("%s%s:%ld:%d", i ? "," : "", o.res.rets[i].name, o.res.rets[i].rc, o.res.rets[i].ok);
             if (!o.res.rets[i].ok) allok = 0;
